@@ -2,6 +2,7 @@ use std::path::PathBuf;
 use std::process::Command;
 
 fn main() {
+    println!("cargo::rustc-check-cfg=cfg(wilfred_garden_verif)");
     if !PathBuf::from(".git").exists() {
         return;
     }
